@@ -38,11 +38,12 @@ type Reporter struct {
 	Assume     []string
 	Infra      string
 	ReplayOnly string
+	Out        *os.File // where VIOLATION / KNOWN-FINDING / OK lines go (the original stdout)
 }
 
 // New parses the command line: <tier> [--replay file].
 func New(id, level string) *Reporter {
-	r := &Reporter{ID: id, Level: level, start: time.Now(), known: map[string]Finding{}, printed: map[string]bool{}, viol: map[string]string{}}
+	r := &Reporter{ID: id, Level: level, start: time.Now(), known: map[string]Finding{}, printed: map[string]bool{}, viol: map[string]string{}, Out: os.Stdout}
 	r.Tier = os.Getenv("VERIF_TIER")
 	args := os.Args[1:]
 	for i := 0; i < len(args); i++ {
@@ -78,6 +79,14 @@ func New(id, level string) *Reporter {
 	return r
 }
 
+// Quiet redirects os.Stdout to /dev/null (the code under test prints debug
+// output there); the reporter keeps writing to the original stdout.
+func (r *Reporter) Quiet() {
+	if dn, err := os.OpenFile(os.DevNull, os.O_WRONLY, 0); err == nil {
+		os.Stdout = dn
+	}
+}
+
 func (r *Reporter) Thorough() bool { return r.Tier == "thorough" }
 
 // Violation reports one oracle failure. signature identifies the specific
@@ -89,7 +98,7 @@ func (r *Reporter) Violation(signature, what string, replay interface{}) bool {
 	if k, ok := r.known[signature]; ok {
 		if !r.printed[signature] {
 			r.printed[signature] = true
-			fmt.Printf("KNOWN-FINDING: property=%s %s [%s]\n", r.ID, k.What, signature)
+			fmt.Fprintf(r.Out, "KNOWN-FINDING: property=%s %s [%s]\n", r.ID, k.What, signature)
 		}
 		return false
 	}
@@ -104,7 +113,7 @@ func (r *Reporter) Violation(signature, what string, replay interface{}) bool {
 	os.WriteFile(path, b, 0o644)
 	r.viol[signature] = path
 	if len(r.viol) <= 20 {
-		fmt.Printf("VIOLATION property=%s replay=%s\n  %s\n", r.ID, path, what)
+		fmt.Fprintf(r.Out, "VIOLATION property=%s replay=%s\n  %s\n", r.ID, path, what)
 	}
 	return true
 }
@@ -129,7 +138,7 @@ func (r *Reporter) KnownSeen() []string {
 // Finish writes the evidence file and exits.
 func (r *Reporter) Finish(coverage map[string]interface{}) {
 	if r.Infra != "" {
-		fmt.Printf("INFRA-ERROR property=%s %s\n", r.ID, r.Infra)
+		fmt.Fprintf(r.Out, "INFRA-ERROR property=%s %s\n", r.ID, r.Infra)
 		os.Exit(2)
 	}
 	coverage["known_findings_seen"] = r.KnownSeen()
@@ -150,10 +159,10 @@ func (r *Reporter) Finish(coverage map[string]interface{}) {
 		os.Exit(2)
 	}
 	if r.Violations() > 0 {
-		fmt.Printf("FAIL property=%s violations=%d\n", r.ID, r.Violations())
+		fmt.Fprintf(r.Out, "FAIL property=%s violations=%d\n", r.ID, r.Violations())
 		os.Exit(1)
 	}
-	fmt.Printf("OK property=%s tier=%s wall=%.1fs\n", r.ID, r.Tier, time.Since(r.start).Seconds())
+	fmt.Fprintf(r.Out, "OK property=%s tier=%s wall=%.1fs\n", r.ID, r.Tier, time.Since(r.start).Seconds())
 	os.Exit(0)
 }
 
